@@ -33,7 +33,19 @@ fn free_addr() -> std::net::SocketAddr {
     std::net::TcpListener::bind("127.0.0.1:0").unwrap().local_addr().unwrap()
 }
 
+/// Ports are picked before the nodes bind them; if another process takes one in between, the whole cluster is
+/// started again on fresh ports.
 async fn start_cluster(layout: &[u64]) -> Vec<Member> {
+    for _ in 0..10 {
+        if let Some(members) = try_start_cluster(layout).await {
+            return members;
+        }
+    }
+    eprintln!("tool error: could not start a cluster on loopback ports");
+    std::process::exit(2);
+}
+
+async fn try_start_cluster(layout: &[u64]) -> Option<Vec<Member>> {
     let mut plan = vec![];
     for (d, size) in layout.iter().enumerate() {
         for _ in 0..*size {
@@ -48,8 +60,14 @@ async fn start_cluster(layout: &[u64]) -> Vec<Member> {
         let node = DatacakeNodeBuilder::<DCAwareSelector>::new(i as u8 + 1, cfg)
             .with_data_center(format!("dc{}", dc))
             .connect()
-            .await
-            .expect("connect node");
+            .await;
+        let node = match node {
+            Ok(n) => n,
+            Err(e) => {
+                eprintln!("node {} could not start on {addr}: {e}; starting the cluster again", i + 1);
+                return None;
+            },
+        };
         // the store is added before the other nodes join, so that it sees every membership change
         let inner = Arc::new(MemStore::default());
         let fs = FaultyStore::on(inner.clone());
@@ -65,7 +83,7 @@ async fn start_cluster(layout: &[u64]) -> Vec<Member> {
     }
     // let the selectors / distributors take the final membership in
     tokio::time::sleep(Duration::from_millis(1500)).await;
-    members
+    Some(members)
 }
 
 fn level(s: &str) -> Consistency {
